@@ -39,6 +39,16 @@ pub type Scalar = Ed25519Scalar;
 
 impl Point {
 
+    /// Verification hook (read-only): wrap an edwards25519 point (which
+    /// MUST be in the subgroup of order 4*L, i.e. the double of a curve
+    /// point) as a ristretto255 element.
+    #[cfg(feature = "verif_hooks")]
+    pub fn verif_from_inner(P: Ed25519Point) -> Self { Self(P) }
+
+    /// Verification hook (read-only): get the internal representative.
+    #[cfg(feature = "verif_hooks")]
+    pub fn verif_inner(self) -> Ed25519Point { self.0 }
+
     /// The neutral element (identity point) in the group.
     pub const NEUTRAL: Self = Self(Ed25519Point::NEUTRAL);
 
